@@ -166,11 +166,12 @@ func runC05(args []string) error {
 		tbl := hxTable()
 		hxs := genHostXPairs(tbl)
 		hxs = append(hxs, genHostXProvenance(r.fork(), tbl)...)
+		hxs = append(hxs, genHostXShadow(r.fork(), tbl)...)
 		for i := 0; i < nHostX; i++ {
 			hxs = append(hxs, genHostXRandom(r.fork(), tbl))
 		}
 		for i, hx := range hxs {
-			st.extras = append(st.extras, &c05Extra{id: 800000000 + i*1000, name: fmt.Sprintf("x%d", i), src: hx.src, hx: hx,
+			st.extras = append(st.extras, &c05Extra{id: 800000000 + i*1000, name: fmt.Sprintf("x%d", i), src: hx.src, hx: hx, child: hx.child,
 				input: map[string]any{"level": "hostx", "kind": hx.kind}})
 		}
 	}
